@@ -18,112 +18,112 @@ CONSTANTS
 Positions(ord) == Exact(ord)
 
 C01_2D(tk) ==
-  [ counts            |-> Num2(CountM(tk, RE, CE, WS)),
-    unweighted_counts |-> Num2(CountM(tk, RE, CE, "n")),
-    row_pos           |-> Positions(RowOrder),
-    column_pos        |-> Positions(ColOrder) ]
+  [ counts            |-> Num2(CountM(tk, RE(tk), CE(tk), WS)),
+    unweighted_counts |-> Num2(CountM(tk, RE(tk), CE(tk), "n")),
+    row_pos           |-> Positions(RowOrder(tk)),
+    column_pos        |-> Positions(ColOrder(tk)) ]
 C01_2D_Y(tk) ==
-  [ means   |-> Num2(YStatM("mean", tk, RE, CE)),
-    sums    |-> Num2(YStatM("sum", tk, RE, CE)),
-    stddev  |-> Num2(YStatM("stddev", tk, RE, CE)),
-    medians |-> Num2(YStatM("median", tk, RE, CE)) ]
+  [ means   |-> Num2(YStatM("mean", tk, RE(tk), CE(tk))),
+    sums    |-> Num2(YStatM("sum", tk, RE(tk), CE(tk))),
+    stddev  |-> Num2(YStatM("stddev", tk, RE(tk), CE(tk))),
+    medians |-> Num2(YStatM("median", tk, RE(tk), CE(tk))) ]
 C01_1D(tk) ==
-  [ counts            |-> Num1(SCountV(tk, RE, WS)),
-    unweighted_counts |-> Num1(SCountV(tk, RE, "n")),
-    row_pos           |-> Positions(RowOrder) ]
+  [ counts            |-> Num1(SCountV(tk, RE(tk), WS)),
+    unweighted_counts |-> Num1(SCountV(tk, RE(tk), "n")),
+    row_pos           |-> Positions(RowOrder(tk)) ]
 C01_1D_Y(tk) ==
-  [ means   |-> Num1(SYStatV("mean", tk, RE)),
-    sums    |-> Num1(SYStatV("sum", tk, RE)),
-    stddev  |-> Num1(SYStatV("stddev", tk, RE)),
-    medians |-> Num1(SYStatV("median", tk, RE)) ]
+  [ means   |-> Num1(SYStatV("mean", tk, RE(tk))),
+    sums    |-> Num1(SYStatV("sum", tk, RE(tk))),
+    stddev  |-> Num1(SYStatV("stddev", tk, RE(tk))),
+    medians |-> Num1(SYStatV("median", tk, RE(tk))) ]
 
 C02_2D(tk) ==
-  [ row_weighted_bases      |-> Num2(RowBaseM(tk, RE, CE, WS)),
-    row_unweighted_bases    |-> Num2(RowBaseM(tk, RE, CE, "n")),
-    column_weighted_bases   |-> Num2(ColBaseM(tk, RE, CE, WS)),
-    column_unweighted_bases |-> Num2(ColBaseM(tk, RE, CE, "n")),
-    table_weighted_bases    |-> Num2(TableBaseM(tk, RE, CE, WS)),
-    table_unweighted_bases  |-> Num2(TableBaseM(tk, RE, CE, "n")),
-    rows_margin             |-> RowsMargin(tk, RE, CE, WS),
-    rows_base               |-> RowsMargin(tk, RE, CE, "n"),
-    columns_margin          |-> ColsMargin(tk, RE, CE, WS),
-    columns_base            |-> ColsMargin(tk, RE, CE, "n"),
-    table_margin            |-> TableBaseOut(tk, RE, CE, WS),
-    table_base              |-> TableBaseOut(tk, RE, CE, "n"),
+  [ row_weighted_bases      |-> Num2(RowBaseM(tk, RE(tk), CE(tk), WS)),
+    row_unweighted_bases    |-> Num2(RowBaseM(tk, RE(tk), CE(tk), "n")),
+    column_weighted_bases   |-> Num2(ColBaseM(tk, RE(tk), CE(tk), WS)),
+    column_unweighted_bases |-> Num2(ColBaseM(tk, RE(tk), CE(tk), "n")),
+    table_weighted_bases    |-> Num2(TableBaseM(tk, RE(tk), CE(tk), WS)),
+    table_unweighted_bases  |-> Num2(TableBaseM(tk, RE(tk), CE(tk), "n")),
+    rows_margin             |-> RowsMargin(tk, RE(tk), CE(tk), WS),
+    rows_base               |-> RowsMargin(tk, RE(tk), CE(tk), "n"),
+    columns_margin          |-> ColsMargin(tk, RE(tk), CE(tk), WS),
+    columns_base            |-> ColsMargin(tk, RE(tk), CE(tk), "n"),
+    table_margin            |-> TableBaseOut(tk, RE(tk), CE(tk), WS),
+    table_base              |-> TableBaseOut(tk, RE(tk), CE(tk), "n"),
     table_base_range        |-> TableBaseRange(tk, "n"),
     table_margin_range      |-> TableBaseRange(tk, WS),
-    min_base_size_mask__table_mask  |-> TableMask(tk, RE, CE, MinBase),
-    min_base_size_mask__row_mask    |-> RowMask(tk, RE, CE, MinBase),
-    min_base_size_mask__column_mask |-> ColMask(tk, RE, CE, MinBase) ]
+    min_base_size_mask__table_mask  |-> TableMask(tk, RE(tk), CE(tk), MinBase),
+    min_base_size_mask__row_mask    |-> RowMask(tk, RE(tk), CE(tk), MinBase),
+    min_base_size_mask__column_mask |-> ColMask(tk, RE(tk), CE(tk), MinBase) ]
 C02_1D(tk) ==
-  [ weighted_bases     |-> Num1(SBaseV(tk, RE, WS)),
-    unweighted_bases   |-> Num1(SBaseV(tk, RE, "n")),
+  [ weighted_bases     |-> Num1(SBaseV(tk, RE(tk), WS)),
+    unweighted_bases   |-> Num1(SBaseV(tk, RE(tk), "n")),
     table_base_range   |-> SBaseRange(tk, "n"),
     table_margin_range |-> SBaseRange(tk, WS),
-    min_base_size_mask |-> SMask(tk, RE, MinBase) ]
+    min_base_size_mask |-> SMask(tk, RE(tk), MinBase) ]
 
 C03_2D(tk) ==
-  [ row_proportions         |-> Num2(RowPropM(tk, RE, CE)),
-    column_proportions      |-> Num2(ColPropM(tk, RE, CE)),
-    table_proportions       |-> Num2(TablePropM(tk, RE, CE)),
-    row_percentages         |-> Num2(Times100(RowPropM(tk, RE, CE))),
-    column_percentages      |-> Num2(Times100(ColPropM(tk, RE, CE))),
-    table_percentages       |-> Num2(Times100(TablePropM(tk, RE, CE))),
-    rows_margin_proportion    |-> RowsMarginProp(tk, RE, CE),
-    columns_margin_proportion |-> ColsMarginProp(tk, RE, CE) ]
+  [ row_proportions         |-> Num2(RowPropM(tk, RE(tk), CE(tk))),
+    column_proportions      |-> Num2(ColPropM(tk, RE(tk), CE(tk))),
+    table_proportions       |-> Num2(TablePropM(tk, RE(tk), CE(tk))),
+    row_percentages         |-> Num2(Times100(RowPropM(tk, RE(tk), CE(tk)))),
+    column_percentages      |-> Num2(Times100(ColPropM(tk, RE(tk), CE(tk)))),
+    table_percentages       |-> Num2(Times100(TablePropM(tk, RE(tk), CE(tk)))),
+    rows_margin_proportion    |-> RowsMarginProp(tk, RE(tk), CE(tk)),
+    columns_margin_proportion |-> ColsMarginProp(tk, RE(tk), CE(tk)) ]
 C03_1D(tk) ==
-  [ table_proportions  |-> Num1(SPropV(tk, RE)),
-    table_percentages  |-> Num1([i \in 1..Len(RE) |-> Mul(R(100), SPropV(tk, RE)[i])]) ]
+  [ table_proportions  |-> Num1(SPropV(tk, RE(tk))),
+    table_percentages  |-> Num1([i \in 1..Len(RE(tk)) |-> Mul(R(100), SPropV(tk, RE(tk))[i])]) ]
 
 \* display positions (0-based) of inserted subtotals and of differences
 IdxWhere(E, P(_)) == Exact(SelectSeq([i \in 1..Len(E) |-> i - 1], LAMBDA i : P(E[i + 1])))
 
 C04_2D(tk) ==
   C01_2D(tk) @@ C03_2D(tk) @@
-  [ row_weighted_bases      |-> Num2(RowBaseM(tk, RE, CE, WS)),
-    row_unweighted_bases    |-> Num2(RowBaseM(tk, RE, CE, "n")),
-    column_weighted_bases   |-> Num2(ColBaseM(tk, RE, CE, WS)),
-    column_unweighted_bases |-> Num2(ColBaseM(tk, RE, CE, "n")),
-    table_weighted_bases    |-> Num2(TableBaseM(tk, RE, CE, WS)),
-    table_unweighted_bases  |-> Num2(TableBaseM(tk, RE, CE, "n")),
-    inserted_row_idxs       |-> IdxWhere(RE, IsIns),
-    inserted_column_idxs    |-> IdxWhere(CE, IsIns),
-    diff_row_idxs           |-> IdxWhere(RE, IsDiff),
-    diff_column_idxs        |-> IdxWhere(CE, IsDiff) ]
+  [ row_weighted_bases      |-> Num2(RowBaseM(tk, RE(tk), CE(tk), WS)),
+    row_unweighted_bases    |-> Num2(RowBaseM(tk, RE(tk), CE(tk), "n")),
+    column_weighted_bases   |-> Num2(ColBaseM(tk, RE(tk), CE(tk), WS)),
+    column_unweighted_bases |-> Num2(ColBaseM(tk, RE(tk), CE(tk), "n")),
+    table_weighted_bases    |-> Num2(TableBaseM(tk, RE(tk), CE(tk), WS)),
+    table_unweighted_bases  |-> Num2(TableBaseM(tk, RE(tk), CE(tk), "n")),
+    inserted_row_idxs       |-> IdxWhere(RE(tk), IsIns),
+    inserted_column_idxs    |-> IdxWhere(CE(tk), IsIns),
+    diff_row_idxs           |-> IdxWhere(RE(tk), IsDiff),
+    diff_column_idxs        |-> IdxWhere(CE(tk), IsDiff) ]
 C04_1D(tk) ==
   C01_1D(tk) @@ C03_1D(tk) @@
-  [ weighted_bases     |-> Num1(SBaseV(tk, RE, WS)),
-    unweighted_bases   |-> Num1(SBaseV(tk, RE, "n")),
-    inserted_row_idxs  |-> IdxWhere(RE, IsIns),
-    diff_row_idxs      |-> IdxWhere(RE, IsDiff) ]
+  [ weighted_bases     |-> Num1(SBaseV(tk, RE(tk), WS)),
+    unweighted_bases   |-> Num1(SBaseV(tk, RE(tk), "n")),
+    inserted_row_idxs  |-> IdxWhere(RE(tk), IsIns),
+    diff_row_idxs      |-> IdxWhere(RE(tk), IsDiff) ]
 
 C11_2D(tk) ==
-  [ row_proportion_variances    |-> Num2(VarM("row", tk, RE, CE)),
-    column_proportion_variances |-> Num2(VarM("col", tk, RE, CE)),
-    table_proportion_variances  |-> Num2(VarM("table", tk, RE, CE)),
-    row_std_dev     |-> Sqrt2(VarM("row", tk, RE, CE)),
-    column_std_dev  |-> Sqrt2(VarM("col", tk, RE, CE)),
-    table_std_dev   |-> Sqrt2(VarM("table", tk, RE, CE)),
-    row_std_err     |-> Sqrt2(SE2M("row", tk, RE, CE)),
-    column_std_err  |-> Sqrt2(SE2M("col", tk, RE, CE)),
-    table_std_err   |-> Sqrt2(SE2M("table", tk, RE, CE)),
-    row_proportions_moe    |-> SqrtS2(SE2M("row", tk, RE, CE), Z975),
-    column_proportions_moe |-> SqrtS2(SE2M("col", tk, RE, CE), Z975),
-    table_proportions_moe  |-> SqrtS2(SE2M("table", tk, RE, CE), Z975) ]
+  [ row_proportion_variances    |-> Num2(VarM("row", tk, RE(tk), CE(tk))),
+    column_proportion_variances |-> Num2(VarM("col", tk, RE(tk), CE(tk))),
+    table_proportion_variances  |-> Num2(VarM("table", tk, RE(tk), CE(tk))),
+    row_std_dev     |-> Sqrt2(VarM("row", tk, RE(tk), CE(tk))),
+    column_std_dev  |-> Sqrt2(VarM("col", tk, RE(tk), CE(tk))),
+    table_std_dev   |-> Sqrt2(VarM("table", tk, RE(tk), CE(tk))),
+    row_std_err     |-> Sqrt2(SE2M("row", tk, RE(tk), CE(tk))),
+    column_std_err  |-> Sqrt2(SE2M("col", tk, RE(tk), CE(tk))),
+    table_std_err   |-> Sqrt2(SE2M("table", tk, RE(tk), CE(tk))),
+    row_proportions_moe    |-> SqrtS2(SE2M("row", tk, RE(tk), CE(tk)), Z975),
+    column_proportions_moe |-> SqrtS2(SE2M("col", tk, RE(tk), CE(tk)), Z975),
+    table_proportions_moe  |-> SqrtS2(SE2M("table", tk, RE(tk), CE(tk)), Z975) ]
 C12_2D(tk) ==
-  LET zm == ZScoreM(tk, RE, CE) IN
+  LET zm == ZScoreM(tk, RE(tk), CE(tk)) IN
   [ zscores |-> SSqrt2(zm),
     pvals   |-> TailNormal2(zm) ]
 
 C14_2D(tk) ==
-  [ rows_scale_mean           |-> ScaleOut(tk, DimR, RE, ScaleMean, FALSE),
-    rows_scale_median         |-> ScaleOut(tk, DimR, RE, ScaleMedian, FALSE),
-    rows_scale_mean_stddev    |-> ScaleOut(tk, DimR, RE, ScaleVar, TRUE),
-    rows_scale_mean_stderr    |-> ScaleOut(tk, DimR, RE, ScaleSE2, TRUE),
-    columns_scale_mean        |-> ScaleOut(tk, DimC, CE, ScaleMean, FALSE),
-    columns_scale_median      |-> ScaleOut(tk, DimC, CE, ScaleMedian, FALSE),
-    columns_scale_mean_stddev |-> ScaleOut(tk, DimC, CE, ScaleVar, TRUE),
-    columns_scale_mean_stderr |-> ScaleOut(tk, DimC, CE, ScaleSE2, TRUE),
+  [ rows_scale_mean           |-> ScaleOut(tk, DimR, RE(tk), ScaleMean, FALSE),
+    rows_scale_median         |-> ScaleOut(tk, DimR, RE(tk), ScaleMedian, FALSE),
+    rows_scale_mean_stddev    |-> ScaleOut(tk, DimR, RE(tk), ScaleVar, TRUE),
+    rows_scale_mean_stderr    |-> ScaleOut(tk, DimR, RE(tk), ScaleSE2, TRUE),
+    columns_scale_mean        |-> ScaleOut(tk, DimC, CE(tk), ScaleMean, FALSE),
+    columns_scale_median      |-> ScaleOut(tk, DimC, CE(tk), ScaleMedian, FALSE),
+    columns_scale_mean_stddev |-> ScaleOut(tk, DimC, CE(tk), ScaleVar, TRUE),
+    columns_scale_mean_stderr |-> ScaleOut(tk, DimC, CE(tk), ScaleSE2, TRUE),
     rows_scale_mean_margin      |-> ScaleMarginMean(tk, DimC),
     columns_scale_mean_margin   |-> ScaleMarginMean(tk, DimR),
     rows_scale_median_margin    |-> ScaleMarginMedian(tk, DimC),
@@ -138,28 +138,49 @@ C14_1D(tk) ==
                             scale |-> One] ]
 
 C15_2D(tk) ==
-  [ row_share_sum    |-> Num2(ShareM("row", tk, RE, CE)),
-    column_share_sum |-> Num2(ShareM("col", tk, RE, CE)),
-    total_share_sum  |-> Num2(ShareM("table", tk, RE, CE)),
-    sums             |-> Num2(YStatM("sum", tk, RE, CE)) ]
+  [ row_share_sum    |-> Num2(ShareM("row", tk, RE(tk), CE(tk))),
+    column_share_sum |-> Num2(ShareM("col", tk, RE(tk), CE(tk))),
+    total_share_sum  |-> Num2(ShareM("table", tk, RE(tk), CE(tk))),
+    sums             |-> Num2(YStatM("sum", tk, RE(tk), CE(tk))) ]
 C15_1D(tk) ==
-  [ share_sum |-> Num1(SShareV(tk, RE)),
-    sums      |-> Num1(SYStatV("sum", tk, RE)) ]
+  [ share_sum |-> Num1(SShareV(tk, RE(tk))),
+    sums      |-> Num1(SYStatV("sum", tk, RE(tk))) ]
 C16_2D(tk) ==
-  [ column_index |-> Num2(ColIndexM(tk, RE, CE)) ]
+  [ column_index |-> Num2(ColIndexM(tk, RE(tk), CE(tk))) ]
 C17_2D(tk) ==
-  [ population_counts     |-> Num2(PopCountM(tk, RE, CE)),
-    population_counts_moe |-> SqrtS2(PopSE2M(tk, RE, CE), PopScale),
+  [ population_counts     |-> Num2(PopCountM(tk, RE(tk), CE(tk))),
+    population_counts_moe |-> SqrtS2(PopSE2M(tk, RE(tk), CE(tk)), PopScale),
     population_fraction   |-> Num0(Fraction) ]
 C17_1D(tk) ==
-  [ population_counts     |-> Num1(SPopCountV(tk, RE)),
-    population_counts_moe |-> SqrtS1(SPopSE2V(tk, RE), PopScale),
+  [ population_counts     |-> Num1(SPopCountV(tk, RE(tk))),
+    population_counts_moe |-> SqrtS1(SPopSE2V(tk, RE(tk)), PopScale),
     population_fraction   |-> Num0(Fraction) ]
 
+\* display orders in both renderings, labels (as references) and extents
+Bogus(d, dc, ord) == [k |-> "bogus", nd |-> 0, v |-> BogusIds(d, dc, ord)]
+C07_2D(tk) ==
+  [ row_order_signed    |-> Exact(SignedIndexes(DimR, RowDC, RowOrder(tk))),
+    column_order_signed |-> Exact(SignedIndexes(DimC, ColDC, ColOrder(tk))),
+    row_order_bogus     |-> Bogus(DimR, RowDC, RowOrder(tk)),
+    column_order_bogus  |-> Bogus(DimC, ColDC, ColOrder(tk)),
+    row_pos             |-> Positions(RowOrder(tk)),
+    column_pos          |-> Positions(ColOrder(tk)),
+    shape               |-> Exact(<<Len(RowOrder(tk)), Len(ColOrder(tk))>>),
+    inserted_row_idxs    |-> IdxWhere(RE(tk), IsIns),
+    inserted_column_idxs |-> IdxWhere(CE(tk), IsIns),
+    is_empty            |-> Exact(Len(RowOrder(tk)) = 0 \/ Len(ColOrder(tk)) = 0) ]
+C07_1D(tk) ==
+  [ row_order_signed |-> Exact(SignedIndexes(DimR, RowDC, RowOrder(tk))),
+    row_order_bogus  |-> Bogus(DimR, RowDC, RowOrder(tk)),
+    row_pos          |-> Positions(RowOrder(tk)),
+    shape            |-> Exact(<<Len(RowOrder(tk))>>),
+    inserted_row_idxs |-> IdxWhere(RE(tk), IsIns),
+    is_empty         |-> Exact(Len(RowOrder(tk)) = 0) ]
+
 C11_1D(tk) ==
-  [ table_proportion_stddevs |-> Sqrt1(SVarV(tk, RE)),
-    table_proportion_stderrs |-> Sqrt1(SSE2V(tk, RE)),
-    table_proportion_moes    |-> SqrtS1(SSE2V(tk, RE), Z975) ]
+  [ table_proportion_stddevs |-> Sqrt1(SVarV(tk, RE(tk))),
+    table_proportion_stderrs |-> Sqrt1(SSE2V(tk, RE(tk))),
+    table_proportion_moes    |-> SqrtS1(SSE2V(tk, RE(tk)), Z975) ]
 
 \* 0-D response (a numeric summary without dimensions): the single "nub" partition
 NubPart ==
@@ -203,14 +224,16 @@ Part(tk) ==
     [] Family = "c16" /\ ND > 1 -> C16_2D(tk)
     [] Family = "c17" /\ ND = 1 -> C17_1D(tk)
     [] Family = "c17" /\ ND > 1 -> C17_2D(tk)
+    [] Family \in {"c07", "c09"} /\ ND = 1 -> C07_1D(tk)
+    [] Family \in {"c07", "c09"} /\ ND > 1 -> C07_2D(tk)
     [] Family = "c04" /\ ND = 1 -> IF HasY THEN C04_1D(tk) @@ C01_1D_Y(tk) ELSE C04_1D(tk)
     [] Family = "c04" /\ ND > 1 -> IF HasY THEN C04_2D(tk) @@ C01_2D_Y(tk) ELSE C04_2D(tk)
 
 \* layout of the partition, for the harness' mismatch signatures and label mapping
-Aux ==
-  [ rows  |-> RowOrder, cols |-> ColOrder,
-    rdiff |-> [i \in 1..Len(RE) |-> IsDiff(RE[i])],
-    cdiff |-> [j \in 1..Len(CE) |-> IsDiff(CE[j])],
+Aux(tk) ==
+  [ rows  |-> RowOrder(tk), cols |-> ColOrder(tk),
+    rdiff |-> [i \in 1..Len(RE(tk)) |-> IsDiff(RE(tk)[i])],
+    cdiff |-> [j \in 1..Len(CE(tk)) |-> IsDiff(CE(tk)[j])],
     rsubs |-> IF ND >= 1 THEN LiveIdx(DimR, InsSource(RowDC)) ELSE << >>,
     csubs |-> IF ND >= 2 THEN LiveIdx(DimC, InsSource(ColDC)) ELSE << >> ]
 
@@ -220,7 +243,7 @@ Out ==
     ci    |-> ci,
     flat  |-> Flat,
     flaty |-> IF HasY THEN FlatY ELSE [none |-> 0],
-    aux   |-> Aux,
+    aux   |-> IF ND = 0 THEN << >> ELSE [t \in 1..NParts |-> Aux(TableEls[t])],
     cube  |-> IF Family = "c01" THEN (IF HasY THEN CubeLevel @@ CubeLevelY ELSE CubeLevel)
               ELSE [none |-> 0],
     parts |-> IF ND = 0 THEN << NubPart >> ELSE [t \in 1..NParts |-> Part(TableEls[t])] ]
